@@ -755,6 +755,9 @@ def run(ctx):
     stage_calckick(ctx, dis, 120 if q else 3000)
     stage_program(ctx, dis, 21 if q else 140)
     stage_program_steps(ctx, dis, 18 if q else 120)
+    # stdriver strengthening (seeds C19-G/H): flushes across the storage layout, runs beyond 2^16 / 2^17 steps, generated queue
+    import c19_extra
+    c19_extra.run_all(ctx, dis, coq)
     HAVE_DRIVER[0] = bool(os.path.exists(vp_coq.model_path("driver")) and coq["extract_ok"] and coq["make_ok"])
     stage_program_interrupt(ctx, dis, 7 if q else 28, 9 if q else 16)
     stage_genkick(ctx, dis, 40 if q else 400)
